@@ -1315,6 +1315,190 @@ def judge_announce(run, model, spec):
     run.compare('C01.announce', spec, [r[2] for r in results], [sorted(x) for x in mod])
 
 
+# ----------------------------------------------------------------------------------------------
+# "received from the network": the real BlobExchangeClientProtocol over a fake transport. One kept-alive connection
+# serves a HISTORY of 2-4 blob requests; every response (json header + blob bytes) is cut into TCP segments at chosen
+# positions - in particular inside the header - and the peer sends correct / corrupted / truncated / over-long /
+# unrelated bytes. Monitor = the property's two sentences per blob of the history.
+# ----------------------------------------------------------------------------------------------
+
+class FakeTransport:
+    def __init__(self, addr):
+        self.closing, self.sent, self.addr = False, [], addr
+
+    def is_closing(self):
+        return self.closing
+
+    def close(self):
+        self.closing = True
+
+    def abort(self):
+        self.closing = True
+
+    def write(self, d):
+        self.sent.append(d)
+
+    def get_extra_info(self, name, default=None):
+        return self.addr
+
+
+def response_header(blob_hash, length):
+    return json.dumps({'available_blobs': [blob_hash], 'blob_data_payment_rate': 'RATE_ACCEPTED',
+                       'incoming_blob': {'blob_hash': blob_hash, 'length': length}}).encode()
+
+
+def client_blob(rng, idx, fate, header_cuts, body_step):
+    n = rng.choice([1, 2, 37, 300, 3000, 20000]) + rng.randrange(0, 40)
+    data = bytes([idx + 1]) + rng.randbytes(n)
+    if rng.random() < 0.4:                         # blob bytes that look like the end of a json object
+        data = b'}' * rng.randrange(1, 12) + data
+    sent = data if fate == 'correct' else make_data(rng, fate, data)
+    return {'data': data.hex(), 'fate': fate, 'sent': sent.hex(), 'header_cuts': header_cuts, 'body_step': body_step}
+
+
+def client_family(rng, tier):
+    """deterministic grid (header of the FIRST response whole / cut once at every kind of position / cut twice, followed by
+    1-2 further blobs on the same connection) + seeded random histories"""
+    out = []
+    hl = len(response_header('0' * 96, 1000))
+    grid = [[], [1], [25], [hl // 2], [hl - 1], [10, 60], [hl]]
+    for kind in ('buffer', 'file'):
+        for cuts in grid:
+            for later in (['correct'], ['correct', 'correct'], ['flip_last', 'correct']):
+                blobs = [client_blob(rng, 0, 'correct', cuts, rng.choice([1000, 8000, 1 << 20]))]
+                for j, f in enumerate(later):
+                    blobs.append(client_blob(rng, j + 1, f, rng.choice([[], [rng.randrange(1, hl)]]), rng.choice([700, 8000, 1 << 20])))
+                out.append({'client': True, 'kind': kind, 'known_length': rng.random() < 0.3, 'blobs': blobs})
+    fates = ['correct', 'correct', 'correct', 'flip_first', 'flip_mid', 'flip_last', 'truncated', 'overlong', 'unrelated']
+    for _ in range(vlib.scaled(tier, 60, 3000)):
+        blobs = []
+        for j in range(rng.randrange(2, 5)):
+            cuts = sorted(set(rng.randrange(1, hl + 1) for _ in range(rng.choice([0, 1, 1, 2, 3]))))
+            blobs.append(client_blob(rng, j, rng.choice(fates), cuts, rng.choice([1, 50, 1460, 8000, 1 << 20])))
+        out.append({'client': True, 'kind': rng.choice(['buffer', 'file']), 'known_length': rng.random() < 0.3, 'blobs': blobs})
+    return out
+
+
+def run_client(case):
+    """-> (fails, per-blob observations). Drives BlobExchangeClientProtocol.download_blob / data_received / connection_lost."""
+    from lbry.blob_exchange.client import BlobExchangeClientProtocol
+    fails, obs = [], []
+    root = tempfile.mkdtemp(prefix='c01c_')
+    loop = asyncio.new_event_loop()
+    asyncio.set_event_loop(loop)
+    addr = ('10.0.0.1', 3333)
+
+    async def main():
+        proto, requests_on_conn = None, 0
+        for i, b in enumerate(case['blobs']):
+            data, sent = bytes.fromhex(b['data']), bytes.fromhex(b['sent'])
+            hx = hashlib.sha384(data).hexdigest()
+            if proto is None or proto.transport is None or proto.transport.is_closing():   # what request_blob does
+                proto, requests_on_conn = BlobExchangeClientProtocol(loop, peer_timeout=3), 0
+                proto.connection_made(FakeTransport(addr))
+            transport = proto.transport
+            length = len(data) if case['known_length'] else None
+            blob = (BlobFile(loop, hx, length, None, root) if case['kind'] == 'file' else BlobBuffer(loop, hx, length))
+            task = loop.create_task(proto.download_blob(blob))
+            for _ in range(3):
+                await asyncio.sleep(0)
+            asked = b''.join(transport.sent)
+            transport.sent.clear()
+            if hx.encode() not in asked:
+                fails.append(f'blob {i}: no request naming the blob was written to the connection')
+            hdr = response_header(hx, len(data))
+            stream = hdr + sent
+            cuts = [c for c in b['header_cuts'] if 0 < c <= len(hdr)]
+            pos, segs = 0, []
+            for c in cuts:
+                segs.append(stream[pos:c])
+                pos = c
+            if pos < len(hdr):                     # rest of the header travels with the first body bytes
+                end = min(len(stream), len(hdr) + b['body_step'])
+                segs.append(stream[pos:end])
+                pos = end
+            while pos < len(stream):
+                segs.append(stream[pos:pos + b['body_step']])
+                pos += b['body_step']
+            fed = 0
+            for sgm in segs:
+                if not sgm:
+                    continue
+                if proto.transport is None or task.done():
+                    break
+                proto.data_received(sgm)
+                fed += len(sgm)
+                await asyncio.sleep(0)
+            if not task.done() and len(sent) < len(data):
+                proto.connection_lost(None)         # the peer hangs up after a truncated copy
+            try:
+                got, p = await asyncio.wait_for(task, 8)
+                result = [got, p is proto]
+            except asyncio.CancelledError:
+                result = ['cancelled']
+            except asyncio.TimeoutError:
+                result = ['stuck']
+            except Exception as e:  # noqa
+                result = [type(e).__name__]
+            for _ in range(3):
+                await asyncio.sleep(0)
+            verified = blob.get_is_verified()
+            stored = None
+            if case['kind'] == 'file':
+                path = os.path.join(root, hx)
+                if os.path.isfile(path):
+                    with open(path, 'rb') as f:
+                        stored = f.read()
+            elif verified:
+                with blob.reader_context() as r:
+                    stored = r.read()
+            delivered = sent == data and fed == len(stream)
+            where = (f'blob {i} ({len(data)} bytes, request {requests_on_conn + 1} on this connection, header of '
+                     f'{len(hdr)} bytes cut at {cuts}, fate {b["fate"]})')
+            if delivered and not verified:
+                fails.append(f'{where}: the peer delivered a complete correct copy but the blob did not become verified '
+                             f'(download_blob -> {result})')
+            if verified and (stored is None or len(stored) != len(data) or sha(stored).hex() != hx):
+                fails.append(f'{where}: verified but the stored bytes do not have the announced length and SHA-384')
+            if verified and sent[:len(data)] != data:
+                fails.append(f'{where}: verified although the received bytes do not match the blob hash')
+            if not verified and stored is not None:
+                fails.append(f'{where}: not verified but a file was written into the blob directory')
+            if delivered and verified and stored != data:
+                fails.append(f'{where}: verified but not exactly the delivered bytes are stored')
+            obs.append({'verified': verified, 'result': result, 'delivered': delivered, 'reused': requests_on_conn > 0})
+            requests_on_conn += 1
+            blob.close()
+        if proto is not None and proto.transport is not None:
+            proto.connection_lost(None)
+
+    try:
+        loop.run_until_complete(main())
+    finally:
+        try:
+            loop.run_until_complete(loop.shutdown_default_executor())
+        except Exception:  # noqa
+            pass
+        asyncio.set_event_loop(None)
+        loop.close()
+        shutil.rmtree(root, ignore_errors=True)
+    return fails, obs
+
+
+def judge_client(run, case):
+    fails, obs = run_client(case)
+    run.case(case, nontrivial=any(o['verified'] for o in obs), validated=True)
+    run.count('cases:client-protocol')
+    for o, b in zip(obs, case['blobs']):
+        run.count('client:%s:%s' % (b['fate'], 'verified' if o['verified'] else 'not-verified'))
+        if o['reused'] and o['delivered']:
+            run.count('client:correct-copy-on-reused-connection')
+        if o['reused'] and o['delivered'] and b['header_cuts']:
+            run.count('client:...with-fragmented-header')
+    for what in fails[:5]:
+        run.violation(case, what, signature={'case': hashlib.sha1(vlib.canon(case).encode()).hexdigest()})
+
+
 def main(run):
     model = vlib.Model('C01', oracles={'sha384': sha})
     rng = run.rng
@@ -1340,10 +1524,19 @@ def main(run):
                 '3-6 blobs on the real BlobManager + SQLiteStorage with the real blob_completed, each known from a descriptor '
                 '(pending row) or not, receiving correct / corrupted / truncated / over-long / no data from 1-2 peers; what '
                 'get_blobs_to_announce hands out is observed under both settings of announce_head_and_sd_only, after '
-                'update_last_announced_blobs, and again after half the expiration time.')
+                'update_last_announced_blobs, and again after half the expiration time. Client protocol (monitor-only): the real '
+                'BlobExchangeClientProtocol over a fake transport serves a history of 2-4 blob requests on one kept-alive '
+                'connection (re-connecting as request_blob does once the client has closed it); each response = json header + '
+                'correct / bit-flipped / truncated / over-long / unrelated bytes, cut into TCP segments at 0-3 positions inside the '
+                'header (grid: whole, after byte 1, 25, middle, last-but-one, twice, exactly at the end) and every 1 / 50 / 1460 / '
+                '8000 bytes of the body; blob bytes often begin with a run of "}"; per blob: complete correct copy delivered => '
+                'verified with exactly those bytes, verified => announced length and SHA-384, not verified => no file.')
     for nm, case in load_corpus():
         if case.get('announce'):
             judge_announce(run, model, case)
+            continue
+        if case.get('client'):
+            judge_client(run, case)
             continue
         try:
             c, trace, mon = run_fixed(case)
@@ -1402,6 +1595,8 @@ def main(run):
             run.violation(desc, mon.bad, signature=desc)
     for _ in range(vlib.scaled(run.tier, 120, 2500)):
         judge_announce(run, model, gen_announce_spec(rng))
+    for case in client_family(rng, run.tier):
+        judge_client(run, case)
     run.partial = []
     run.supporting = {'oracle_calls': model.oracle_calls}
     model.close()
@@ -1411,6 +1606,8 @@ def replay(run, case):
     model = vlib.Model('C01', oracles={'sha384': sha})
     if case.get('announce'):
         judge_announce(run, model, case)
+    elif case.get('client'):
+        judge_client(run, case)
     elif case.get('big'):
         desc, mon = big_case(run, run.rng, case['kind'], case['size'], case['variant'])
         run.case(desc)
